@@ -15,6 +15,7 @@ var constGlobalsOnce sync.Once
 
 func (g *Global) scanGlobals() {
 	g.constGlobals = map[*ssa.Global]*ssa.Const{}
+	g.nonNilGlobals = map[*ssa.Global]bool{}
 	bad := map[*ssa.Global]bool{}
 	for _, fn := range g.fnByName {
 		for _, b := range fn.Blocks {
@@ -39,6 +40,14 @@ func (g *Global) scanGlobals() {
 				if !ok {
 					continue
 				}
+				if _, isAlloc := st.Val.(*ssa.Alloc); isAlloc && fn.Name() == "init" && fn.Pkg == gv.Pkg {
+					// initialised with the address of a composite literal (a second store disqualifies it)
+					if g.nonNilGlobals[gv] {
+						bad[gv] = true
+					}
+					g.nonNilGlobals[gv] = true
+					continue
+				}
 				c, isConst := st.Val.(*ssa.Const)
 				if isConst && fn.Name() == "init" && fn.Pkg == gv.Pkg {
 					if _, dup := g.constGlobals[gv]; dup {
@@ -53,7 +62,19 @@ func (g *Global) scanGlobals() {
 	}
 	for gv := range bad {
 		delete(g.constGlobals, gv)
+		delete(g.nonNilGlobals, gv)
 	}
+}
+
+// nonNilGlobal: a package-level pointer variable that the loaded program only initialises with the
+// address of a composite literal and never assigns again (same closed-world assumption as above).
+func (g *Global) nonNilGlobal(gv *ssa.Global) bool {
+	constGlobalsOnce.Do(g.scanGlobals)
+	if g.nonNilGlobals[gv] {
+		g.nonNilGlobalUsed = true
+		return true
+	}
+	return false
 }
 
 func (g *Global) constGlobal(gv *ssa.Global) *ssa.Const {
